@@ -218,3 +218,36 @@ Section GForest.
                       let '(f', evs) := gstep_op (fst st) o in
                       (f', snd st ++ (-1)%Z :: evs ++ gall_flags f')) opl (f0, gall_flags f0)).
 End GForest.
+
+(* one tree, one API call at a time (Model/Engine.v `op` / `step` / `run_ops` over the interface): a mutation at a path, or
+   compute_layout with a root input *)
+Section GHistory.
+  Variables (S In Out Lay : Type).
+  Variable mode : In -> RunMode.
+  Variable is_none : S -> bool.
+  Variable hidden_out : Out.
+  Variable zero_lay : Lay.
+  Variable algo : S -> list S -> In -> Alg In Out Lay.
+  Variable mcalls : S -> list S -> In -> N.
+  Variable C : Type.
+  Variable cget : C -> In -> option Out.
+  Variable clossy : C -> In -> bool.
+  Variable cstore : C -> In -> Out -> C.
+  Variable cclear : C -> C.
+  Variable cdirty : C -> bool.
+  Notation tree := (gtree S Lay C).
+
+  Inductive gop :=
+  | GOMutate (p : list nat) (e : gedit S Lay C)
+  | GOLayout (fuel : nat) (i : In).
+  Definition gstep (t : tree) (o : gop) : tree :=
+    match o with
+    | GOMutate p e => gmutate S Lay C cclear cdirty t p e
+    | GOLayout f i =>
+        match gmemo S In Out Lay mode is_none hidden_out zero_lay algo mcalls C cget clossy cstore cclear f t i with
+        | Some (_, t') => t'
+        | None => t
+        end
+    end.
+  Definition grun_ops (t : tree) (ops : list gop) : tree := fold_left gstep ops t.
+End GHistory.
